@@ -83,7 +83,9 @@ def cases(tier, seed):
                     for extra in (0, 1):
                         for inferred in (False, True):
                             yield dict(kind="scatter", region=ri, size=size, seed=sd, proj=proj, extra=extra, inferred=inferred)
-    for est in ("Trend", "KNeighbors", "Chain", "Vector"):
+    for nx in (1, 2):
+        yield dict(kind="extra_name", nx=nx)
+    for est in ("Trend", "KNeighbors", "Chain", "Vector", "CheckerBoard"):
         for spec in (dict(shape=[3, 4]), dict(shape=[2, 5]), dict(spacing=[1.0, 0.5])):
             for proj in ("none", "rot"):
                 yield dict(kind="real", est=est, spec=spec, proj=proj)
@@ -337,6 +339,22 @@ def run(case, rec):
             rec.check(list(sc.columns) == [dims[0], dims[1]] + list(want_names), "scatter columns %r" % (list(sc.columns),))
         rec.cls("names/%s/%s" % (case["names"], case["dims"]))
         return
+    if kind == "extra_name":
+        # the name of extra coordinates follows the gridder's `extra_coords_name` attribute
+        g = _coder(1)
+        g.extra_coords_name = "upward"
+        vals = [7.0, 8.0][:case["nx"]]
+        names = ["upward", "upward_1"][:case["nx"]]
+        ds = call(rec, g.grid, region=REGIONS[0], shape=(2, 3), extra_coords=vals if len(vals) > 1 else vals[0])
+        if raised(ds):
+            return rec.check(False, "grid raised %r" % (ds,))
+        for nm, v in zip(names, vals):
+            rec.check(nm in ds.coords and bool(np.all(ds.coords[nm].values == v)), "extra coordinate %r missing or wrong: %r" % (nm, list(ds.coords)))
+        pr = call(rec, g.profile, (0.0, 0.0), (4.0, 3.0), 3, extra_coords=vals if len(vals) > 1 else vals[0])
+        rec.check(not raised(pr) and list(pr.columns) == ["northing", "easting", "distance"] + names + ["scalars"], "profile columns with custom extra coordinate name: %r" % (getattr(pr, "columns", pr),))
+        sc_ = call(rec, g.scatter, region=REGIONS[0], size=2, random_state=0, extra_coords=vals if len(vals) > 1 else vals[0])
+        rec.check(not raised(sc_) and list(sc_.columns) == ["northing", "easting"] + names + ["scalars"], "scatter columns with custom extra coordinate name")
+        return
     if kind == "noregion":
         rec.trivial = True
         g = _coder(1)
@@ -428,6 +446,36 @@ def run(case, rec):
         e = np.array([0.0, 4.0, 1.0, 3.0, 2.0, 0.5, 3.5]); n = np.array([0.0, 3.0, 2.5, 0.5, 1.5, 1.0, 2.0])
         d = 3.0 * e - 2.0 * n + 0.25 * e * n + 1.0
         name = case["est"]
+        if name == "CheckerBoard":
+            cb = vd.synthetic.CheckerBoard(amplitude=10.0, region=(0.0, 4.0, 0.0, 3.0), w_east=3.0, w_north=2.0)
+            kw = {k: (tuple(v) if isinstance(v, list) else v) for k, v in case["spec"].items()}
+            pf = _proj(case["proj"])
+            if pf is not None:
+                kw["projection"] = pf
+            ds = call(rec, cb.grid, **kw)
+            if raised(ds):
+                return rec.check(False, "CheckerBoard.grid raised %r" % (ds,))
+            bad = None
+            for i in range(ds.northing.size):
+                for j in range(ds.easting.size):
+                    q = (np.array(ds.easting.values[j]), np.array(ds.northing.values[i]))
+                    if pf is not None:
+                        q = pf(*q)
+                    want = 10.0 * np.sin(2 * np.pi * q[0] / 3.0) * np.cos(2 * np.pi * q[1] / 2.0)
+                    if abs(float(ds.scalars.values[i, j]) - float(want)) > 1e-9:
+                        bad = (i, j)
+            rec.check(bad is None, "CheckerBoard grid value at %s is not the formula at that node" % (bad,))
+            sc_ = call(rec, cb.scatter, size=5, random_state=3, **({"projection": pf} if pf is not None else {}))
+            if raised(sc_):
+                return rec.check(False, "CheckerBoard.scatter raised %r" % (sc_,))
+            pts = vd.scatter_points((0.0, 4.0, 0.0, 3.0), 5, random_state=3)
+            q = pts if pf is None else pf(*pts)
+            want = 10.0 * np.sin(2 * np.pi * np.asarray(q[0]) / 3.0) * np.cos(2 * np.pi * np.asarray(q[1]) / 2.0)
+            rec.check(np.array_equal(sc_["easting"].values, pts[0]) and np.array_equal(sc_["northing"].values, pts[1]) and np.allclose(sc_["scalars"].values, want, rtol=0, atol=1e-9),
+                      "CheckerBoard.scatter does not predict at scatter_points of its region")
+            rec.check(list(sc_.columns) == ["northing", "easting", "scalars"], "scatter columns %r" % (list(sc_.columns),))
+            rec.cls("real/CheckerBoard")
+            return
         if name == "Trend":
             est, data = vd.Trend(1), d
         elif name == "KNeighbors":
